@@ -11,9 +11,13 @@ fn main() {
         "c15_find_node" => c15_find_node(&mut nd),
         "c04_identity_receive" => c04_identity_receive(&mut nd),
         "c04_sink_flush" => c04_sink_flush(&mut nd),
+        "c10_store_insert" => c10_store_insert(&mut nd),
+        "c10_store_addresses" => c10_store_addresses(&mut nd),
+        "c05_address_shapes" => c05_address_shapes(&mut nd),
         "c05_manager_steps" => c05_manager_steps(&mut nd),
         "c05_dial_address" => c05_dial_address(&mut nd),
         "c16_put_to_targets" => c16_put_to_targets(&mut nd),
+        "c20_block_cid" => c20_block_cid(&mut nd),
         "c20_batching" => c20_batching(&mut nd),
         "c17_store_records" => c17_store_records(&mut nd),
         "c19_multistream_decode" => c19_multistream_decode(&mut nd),
